@@ -80,6 +80,30 @@ pub fn modrms(thorough: bool) -> Vec<(u8, u8)> {
     }
 }
 
+/// Opcodes whose ModRM.reg field selects the operation (Intel "groups"): in the quick tier these get every /r
+/// value, in a register form and in a memory form, so that no member of a group goes unexercised.
+pub fn is_group(opcode: &[u8]) -> bool {
+    match opcode {
+        [b] => matches!(b, 0x80..=0x83 | 0x8f | 0xc0 | 0xc1 | 0xc6 | 0xc7 | 0xd0..=0xd3 | 0xf6 | 0xf7 | 0xfe | 0xff),
+        [0x0f, b] => matches!(b, 0x00 | 0x01 | 0x18 | 0x1f | 0x71..=0x73 | 0xae | 0xba | 0xc7),
+        _ => false,
+    }
+}
+
+pub fn modrms_group(thorough: bool) -> Vec<(u8, u8)> {
+    let mut v = modrms(thorough);
+    if !thorough {
+        for r in 0..8u8 {
+            for m in [0xc0 | (r << 3) | ((r + 1) & 7), r << 3, 0x40 | (r << 3) | 3] {
+                if !v.iter().any(|(x, _)| *x == m) {
+                    v.push((m, 0));
+                }
+            }
+        }
+    }
+    v
+}
+
 pub fn rexes(mode64: bool) -> Vec<Option<u8>> {
     if mode64 {
         vec![None, Some(0x40), Some(0x41), Some(0x44), Some(0x45), Some(0x48), Some(0x49), Some(0x4c), Some(0x4d)]
@@ -104,7 +128,8 @@ pub fn prefixes(extended: bool) -> Vec<Vec<u8>> {
 pub fn for_each(mode64: bool, thorough: bool, extended_prefixes: bool, tails: &[u8], mut f: impl FnMut(u64, &Enc)) {
     let mut n = 0u64;
     let ops = opcodes(thorough);
-    let mrs = modrms(thorough);
+    let mrs_plain = modrms(thorough);
+    let mrs_group = modrms_group(thorough);
     for prefix in prefixes(extended_prefixes) {
         let ext = prefix.iter().any(|p| ![0x66, 0xf2, 0xf3].contains(p)) || prefix.len() > 1;
         for rex in rexes(mode64) {
@@ -112,7 +137,8 @@ pub fn for_each(mode64: bool, thorough: bool, extended_prefixes: bool, tails: &[
                 continue;
             }
             for opcode in &ops {
-                for (modrm, sib) in &mrs {
+                let mrs = if is_group(opcode) { &mrs_group } else { &mrs_plain };
+                for (modrm, sib) in mrs {
                     for &tail in tails {
                         let e = Enc { prefix: prefix.clone(), rex, opcode: opcode.clone(), modrm: *modrm, sib: *sib, tail };
                         f(n, &e);
